@@ -20,7 +20,14 @@ RULE = ('gin-machine/refs: 2-4 probe configurables; bindings whose values nest @
         'ref-shapes (implementation only): @make() alone / in a list / in a dict inside a tuple, scoped or not, bound to '
         'parameters of a consumer of every shape of c01.SHAPES (signature behind decorators, behind Gin\'s wrapper of a '
         'configurable base class, behind a bound self / cls), every split positional / keyword / omitted, two consecutive '
-        'calls with mutation of what was received; expected runs of make (and their scopes) from the property text.')
+        'calls with mutation of what was received; expected runs of make (and their scopes) from the property text. '
+        'ref-parse-modes (implementation only): references of scope depth 0-3 to a registered make (three selector spellings), '
+        'evaluated and unevaluated, mixed inside lists / tuples / dict values, read through parse_config (string / lines), '
+        'parse_config_file, parse_config_files_and_bindings and an include, with skip_unknown omitted / False / True / list / tuple '
+        '/ set (the only unknown name, ghost, is bound in its own statements and / or referenced by a parameter the caller always '
+        'supplies); per occurrence: a fresh result run under the written scope or else the ambient one (tag bound for that scope), '
+        'an unevaluated reference is a callable that runs make under exactly the written scope whenever called; nothing else runs; '
+        'mutation of everything received leaves query_parameter and config_str unchanged.')
 TRUSTED_BASE = c01.TRUSTED_BASE
 ASSUMPTIONS = ['copy.deepcopy on plain containers is CPython; handles are compared by the configurable they denote']
 
@@ -422,10 +429,6 @@ class RefParseEngine(Engine):
       return r
     make_cfg = gin.configurable('make', module='pkg.refmod')(make)
     params = case['params'] + ['z']
-
-    def consumer(**kw):
-      return kw
-    consumer.__signature__ = None
     ns = {}
     exec('def consumer(%s):\n  return dict(%s)\n' % (', '.join('%s="unset"' % p for p in params),      # pylint: disable=exec-used
                                                     ', '.join('%s=%s' % (p, p) for p in params)), ns)
@@ -442,7 +445,7 @@ class RefParseEngine(Engine):
       return 'untagged'
 
     tag_lines = ['%smake.tag = %r' % (t + '/' if t else '', 'T:' + t) for t in case['tags']]
-    ghost_lines = ['ghost.learning_rate = 0.1', 's1/pkg.ghost.decay = [1, 2]'] if 'stmt' in case['ghost'] else []
+    ghost_lines = ['ghost.learning_rate = 0.1', 's1/ghost.decay = [1, 2]'] if 'stmt' in case['ghost'] else []
     bind_lines = ['consumer.%s = %s' % (p, self.render(self.FORMS[form], ref_text(rs))) for p, form, rs in case['binds']]
     if 'ref' in case['ghost']:
       bind_lines.append("consumer.z = [@s1/s3/ghost(), {'k': @ghost}]")
